@@ -28,6 +28,7 @@ Clauses (the violation's clause is runtime/C09/<name>):
   lfda-orthonormalized-basis      embedding_type='orthonormalized': the rows are orthonormal
   lfda-balanced-eigen-structure   equal class sizes, 'plain', n_components = d: L S_d L^T is diagonal (scale-free)
   *-fit-error                     fit raised on a well-formed input
+  oracle-error                    the oracle itself raised (a defect of this file, reported rather than swallowed)
 
 Only well-formed inputs of the property's quantifier are generated: finite generic points (no duplicate points),
 well-conditioned within scatter / within-chunk covariance, separated generalised eigenvalues (otherwise the eigenvectors
@@ -179,7 +180,7 @@ def covariance_datasets(rng, count):
   i = 0
   while made < count and i < 20 * count:
     d = 1 + i % 6
-    kind = COV_KINDS[(i // 6) % len(COV_KINDS)] if d > 1 else 'scalar'
+    kind = COV_KINDS[i % len(COV_KINDS)] if d > 1 else 'scalar'
     i += 1
     for attempt in range(30):
       n = int(rng.randint(max(3, d + 2), 41))
@@ -220,7 +221,7 @@ def rca_datasets(rng, count):
   i = 0
   while made < count and i < 20 * count:
     d = 1 + i % 6
-    kind = RCA_KINDS[(i // 6) % len(RCA_KINDS)]
+    kind = RCA_KINDS[i % len(RCA_KINDS)]
     i += 1
     for attempt in range(40):
       nch = int(rng.randint(2, 7))
@@ -254,7 +255,7 @@ def rca_datasets(rng, count):
         continue
       ok = True
       for T in (total_cov(X[chunks != -1]), total_cov(X)):
-        if np.linalg.cond(T) > 1e6:
+        if np.linalg.cond(T) > 1e5:
           ok = False
           break
         w, _ = gen_eig_desc(T, C)
@@ -519,16 +520,12 @@ def check_lfda_relabel(ml, ds, ncomp, emb, which, rng_seed):
     return bad('lfda-fit-error', 'non-finite metric', **lfda_input(ds, ncomp, emb))
   est2, err2 = lfda_fit(ml, ds, ncomp, emb, y2)
   if err2:
-    return bad('lfda-k-carried-across-classes', 'fit succeeds with labels y but raises with the same classes renamed: %s' % err2, **out_np(inp))
+    return bad('lfda-k-carried-across-classes', 'fit succeeds with labels y but raises with the same classes renamed: %s' % err2, **inp)
   M2 = est2.get_mahalanobis_matrix()
   if not close(M2, M1, rtol=1e-6, atol_scale=1e-7):
     return bad('lfda-k-carried-across-classes', 'renaming the classes (%s) changes the learned metric: relative difference %s'
-               % (name, relerr(M2, M1)), **out_np(inp))
+               % (name, relerr(M2, M1)), **inp)
   return None
-
-
-def out_np(d):
-  return d
 
 
 def check_lfda_balanced(ml, ds):
@@ -567,15 +564,18 @@ def check_lfda_balanced(ml, ds):
 # interface
 # ------------------------------------------------------------------------------------------------------------------
 
-COUNTS = dict(quick=dict(cov=18, rca=20, lfda=25), thorough=dict(cov=120, rca=150, lfda=200))
+COUNTS = dict(quick=dict(cov=24, rca=24, lfda=25), thorough=dict(cov=120, rca=150, lfda=200))
 
 
-def guarded(f, tagname, describe):
+def guarded(f, describe):
   def thunk():
-    try:
-      return f()
-    except Exception as e:     # the oracle itself must not take the run down
-      return dict(tag=tagname, observed='%s: %s' % (type(e).__name__, e), input=describe)
+    with warnings.catch_warnings():
+      warnings.simplefilter('ignore')
+      with np.errstate(all='ignore'):
+        try:
+          return f()
+        except Exception as e:     # a defect of the oracle itself: surfaced, never silently passed
+          return dict(tag='oracle-error', observed='%s: %s' % (type(e).__name__, e), input=describe)
   return thunk
 
 
@@ -583,42 +583,42 @@ def cases(tier, seed):
   ml = repo()
   cnt = COUNTS['thorough' if tier == 'thorough' else 'quick']
 
-  rng = np.random.RandomState(seed)
+  rng = np.random.RandomState(seed % 2 ** 32)
   for ds in covariance_datasets(rng, cnt['cov']):
     desc = 'Covariance %s d=%d n=%d rank=%d' % (ds['kind'], ds['d'], ds['n'], ds['rank'])
-    yield desc, (TAG_COV,), guarded(lambda ds=ds: check_covariance(ml, ds), 'covariance-fit-error', desc)
+    yield desc, (TAG_COV,), guarded(lambda ds=ds: check_covariance(ml, ds), desc)
 
-  rng = np.random.RandomState(seed + 1000003)
+  rng = np.random.RandomState((seed + 1000003) % 2 ** 32)
   for ds in rca_datasets(rng, cnt['rca']):
     d = ds['d']
     base = 'RCA %s d=%d chunks=%s unknown=%d' % (ds['kind'], d, ds['sizes'], ds['unknown'])
     for ncomp in (None, d):
       desc = '%s n_components=%s' % (base, ncomp)
-      yield desc, (TAG_RCA, TAG_RCA_C), guarded(lambda ds=ds, ncomp=ncomp: check_rca_full(ml, ds, ncomp), 'rca-fit-error', desc)
+      yield desc, (TAG_RCA, TAG_RCA_C), guarded(lambda ds=ds, ncomp=ncomp: check_rca_full(ml, ds, ncomp), desc)
     for ncomp in range(1, d):
       desc = '%s n_components=%d' % (base, ncomp)
-      yield desc + ' [dtype]', (TAG_RCA,), guarded(lambda ds=ds, ncomp=ncomp: check_rca_reduced_dtype(ml, ds, ncomp), 'rca-fit-error', desc)
-      yield desc + ' [formula]', (TAG_RCA, TAG_RCA_C), guarded(lambda ds=ds, ncomp=ncomp: check_rca_reduced(ml, ds, ncomp), 'rca-fit-error', desc)
+      yield desc + ' [dtype]', (TAG_RCA,), guarded(lambda ds=ds, ncomp=ncomp: check_rca_reduced_dtype(ml, ds, ncomp), desc)
+      yield desc + ' [formula]', (TAG_RCA, TAG_RCA_C), guarded(lambda ds=ds, ncomp=ncomp: check_rca_reduced(ml, ds, ncomp), desc)
 
-  rng = np.random.RandomState(seed + 2000003)
+  rng = np.random.RandomState((seed + 2000003) % 2 ** 32)
   for idx, ds in enumerate(lfda_datasets(rng, cnt['lfda'])):
     d = ds['d']
     base = 'LFDA %s d=%d classes=%s k=%s' % (ds['kind'], d, ds['sizes'], ds['k'])
     for emb in ('weighted', 'orthonormalized', 'plain'):
       for ncomp in [None] + list(range(1, d + 1)):
         desc = '%s n_components=%s %s' % (base, ncomp, emb)
-        yield desc + ' [formula]', (TAG_LFDA,), guarded(lambda ds=ds, ncomp=ncomp, emb=emb: check_lfda_formula(ml, ds, ncomp, emb), 'lfda-fit-error', desc)
-    rs = seed * 7919 + idx
+        yield desc + ' [formula]', (TAG_LFDA,), guarded(lambda ds=ds, ncomp=ncomp, emb=emb: check_lfda_formula(ml, ds, ncomp, emb), desc)
+    rs = (seed * 7919 + idx) % 2 ** 32
     pick = np.random.RandomState(rs)
     combos = [(None, 'weighted', 0), (None, 'weighted', 1),
               (int(pick.randint(1, d + 1)), ('weighted', 'orthonormalized', 'plain')[int(pick.randint(3))], 0)]
     for ncomp, emb, which in combos:
       desc = '%s n_components=%s %s [relabel-%s]' % (base, ncomp, emb, ('reversed', 'renamed')[which])
       yield desc, (TAG_LFDA,), guarded(lambda ds=ds, ncomp=ncomp, emb=emb, which=which, rs=rs: check_lfda_relabel(ml, ds, ncomp, emb, which, rs),
-                                       'lfda-fit-error', desc)
+                                       desc)
     if ds['kind'].startswith('balanced'):
       desc = '%s [scale-free identities]' % base
-      yield desc, (TAG_LFDA,), guarded(lambda ds=ds: check_lfda_balanced(ml, ds), 'lfda-fit-error', desc)
+      yield desc, (TAG_LFDA,), guarded(lambda ds=ds: check_lfda_balanced(ml, ds), desc)
 
 
 SIGNATURES = {
@@ -644,8 +644,7 @@ def signature(tag, desc):
   words = desc.split()
   fam = words[1] if len(words) > 1 else ''
   if tag.startswith('lfda'):
-    emb = [e for e in ('weighted', 'orthonormalized', 'plain') if (' ' + e) in desc]
-    return '%s [%s classes%s]' % (s, fam, (', ' + emb[0]) if emb else '')
+    return '%s [%s classes]' % (s, fam)
   if tag.startswith('rca') or tag.startswith('covariance'):
     return '%s [%s]' % (s, fam)
   return s
@@ -685,6 +684,8 @@ def run(tier, seed):
 
 
 def replay_clause(cid, fail, seed):
+  """first failing quick case of the learner named in cid; a case failing the clause the obligation is about
+  (local scale / carried k / complex spectrum / eigenvalue weights) is preferred when there is one"""
   low = cid.lower()
   only = None
   if 'covariance' in low:
@@ -693,11 +694,25 @@ def replay_clause(cid, fail, seed):
     only = (TAG_RCA, TAG_RCA_C)
   elif 'lfda' in low or '_eigh' in low or 'sum_outer' in low:
     only = (TAG_LFDA,)
-  first_any = None
+  prefer = None
+  for words, tag in ((('carried', 'per-class', 'perclass', 'kc', 'relabel', 'label-name'), 'lfda-k-carried-across-classes'),
+                     (('sigma', 'local', 'partition', 'scale'), 'lfda-local-scale'),
+                     (('weighted', 'eigenvalue', 'vals', 'tsb'), 'lfda-weighted-eigenvalue'),
+                     (('real', 'complex', 'dtype'), 'rca-reduced-complex')):
+    if any(w in low for w in words):
+      prefer = tag
+      break
+  first = None
   for desc, tags, thunk in cases('quick', seed):
     if only is not None and not (set(tags) & set(only)):
       continue
     b = thunk()
     if b:
-      return dict(failing_input=b['input'], observed='%s: %s' % (b['tag'], b['observed']))
+      hit = dict(failing_input=b['input'], observed='%s: %s' % (b['tag'], b['observed']), case=desc)
+      if prefer is None or b['tag'] == prefer:
+        return hit
+      if first is None:
+        first = hit
+  if first is not None:
+    return first
   return dict(note='no failing input among the quick stand-in cases%s' % ('' if only is None else ' of %s' % (only,)))
